@@ -14,7 +14,7 @@ from ..ref_circuit import RefCircuit, ScatterError, compare_scatter, impl_scatte
 
 TOL = 1e-9
 
-SUB_NAMES = ["bs2", "u3", "h3mid", "h3io", "h4desc", "h4two", "nest", "lossy", "h2zero", "grp", "h5three", "grpplain"]
+SUB_NAMES = ["bs2", "u3", "h3mid", "h3io", "h4desc", "h4two", "nest", "lossy", "h2zero", "grp", "h5three", "grpplain", "bar2", "h3swapend"]
 
 
 def make_sub(name, env):
@@ -54,6 +54,12 @@ def make_sub(name, env):
         c.bs(0, reflectivity=env.R[1]); r.bs(0, 1, env.R[1])
         c.loss(1, env.L[1]); r.loss(1, env.L[1])
         c.bs(1, reflectivity=env.R2, convention="H"); r.bs(1, 2, env.R2, "H")
+        c.herald(1, 0, 1); r.herald(1, 0, 1)
+    elif name == "h3swapend":    # in != out herald, and the block's own last component is a mode swap
+        c = lw.Circuit(3); r = RefCircuit(3)
+        c.bs(0, reflectivity=env.R[1]); r.bs(0, 1, env.R[1])
+        c.bs(1, reflectivity=env.R2, convention="H"); r.bs(1, 2, env.R2, "H")
+        c.mode_swaps({0: 1, 1: 2, 2: 0}); r.swaps({0: 1, 1: 2, 2: 0})
         c.herald(1, 0, 1); r.herald(1, 0, 1)
     elif name == "h2zero":       # vacuum herald only, in != out
         c = lw.Unitary(U[5].copy()); c.herald(0, 2, 0); r = RefCircuit(3); r.unitary(0, U[5]); r.herald(0, 2, 0)
